@@ -8,6 +8,7 @@ pub mod c05;
 pub mod c06;
 pub mod c07;
 pub mod c08;
+pub mod c09;
 pub mod c11;
 pub mod c12;
 pub mod c17;
@@ -44,6 +45,7 @@ pub fn get(id: &str) -> Option<Prop> {
         "C06" => Some(c06::prop()),
         "C07" => Some(c07::prop()),
         "C08" => Some(c08::prop()),
+        "C09" => Some(c09::prop()),
         "C11" => Some(c11::prop()),
         "C12" => Some(c12::prop()),
         "C17" => Some(c17::prop()),
